@@ -42,7 +42,7 @@ func b01(b bool) string {
 }
 
 func cfgTokens(c *Case) []string {
-	toks := []string{"coe=" + b01(c.Coe), "ree=" + b01(c.Ree), "uniq=" + b01(c.Uniq), "upd=" + b01(c.Upd),
+	toks := []string{"coe=" + b01(c.Coe), "ree=" + b01(c.Ree), "uniq=" + b01(c.Uniq), "upd=" + b01(c.Upd), "dl=" + b01(c.DL == 1),
 		"hdir=" + hx(helperDir), "helper=" + hx(helperName)}
 	if c.NoMain {
 		toks = append(toks, "main=-")
